@@ -33,7 +33,15 @@ reg('C03', 'propchecks.treespec', 'proof', T_C03 + T1, [ASCII, DEPTH, CORR,
     '_readtokenword/makeheredoc) and is what the per-input evaluation covers; everything above the tokenizer (LR engine with an ordered-stack invariant, all ~40 action functions, resolve, word expansion, '
     'the loop of parse) is proved'])
 reg('C04', 'propchecks.treespec', 'proof', T1, [ASCII, DEPTH, CORR])
-reg('C05', 'propchecks.treespec', 'proof', T1, [ASCII, DEPTH, CORR])
+C05M = 'Bashlex.Props.C05'
+C05G = 'Bashlex.Props.C05.Gaps'
+T_C05 = [('Bashlex.C05.' + t, C05M) for t in ['C05_partial', 'C05_partial_parts', 'C05_partial_single', 'fcovers_strict', 'leaves_resolve', 'act_leaves', 'leaves_hooks', 'parserRun_leaves']] + \
+        [('Bashlex.LR.run_sound_ordH', C05M)] + [('Bashlex.C05.' + t, C05G) for t in ['token_in_leaf', 'leaf_starts_at_token', 'TokLog.sorted', 'C05_tokens_in_leaves']]
+reg('C05', 'propchecks.treespec', 'proof', T_C05 + T1, [ASCII, DEPTH, CORR,
+    'C05_partial (token level): CONDITIONAL on TokLogAll (the token-source hypothesis of C03 for an invariant that also records the log of delivered tokens, and RootEnds): one part per parser run, in order; the leaves of each part '
+    'are exactly the delivered tokens, grouped ([fd] op target = one redirect leaf, here-document bodies attached), no token duplicated, and the only tokens without a leaf are NEWLINEs in five listed grammar positions (kernel-checked '
+    'witnesses) - D19 (time with proceedonerror invents a leaf at (0,0)) is characterised exactly and excluded by a decidable predicate. NOT proved: the character-level half (text outside leaf spans is layout: needs that the tokenizer '
+    'skips only layout between tokens, TokGaps) and the link to the executable Spec.coverOK (its qsort cannot be evaluated in the kernel); both are decided per input; D11 is not a token-level defect'])
 C12M = 'Bashlex.Props.C12'
 reg('C12', 'propchecks.treespec', 'proof', [('Bashlex.C12.C12_partial', C12M), ('Bashlex.C12.C12_partial_single', C12M), ('Bashlex.C12.C12_only_pipelines', C12M), ('Bashlex.C12.parserRun_ok', C12M), ('Bashlex.C12.hooks_ok', C12M), ('Bashlex.C12.sat_nextToken', 'Bashlex.Props.C12.Tokens'), ('Bashlex.C12.grammar_ok', 'Bashlex.Props.C12.Grammar')] + T1, [ASCII, DEPTH, CORR])
 
